@@ -331,7 +331,7 @@ func cmdCheck(o options, prop string) int {
 			if it.sweep && (it.fi.Spec == nil || it.fi.Spec.Assumed) {
 				// sweep: safety classes only
 				switch ob.Class {
-				case "panic", "vacuity", "guarded-by", "pre", "atomic", "repinv":
+				case "panic", "vacuity", "guarded-by", "pre", "atomic", "repinv", "assert":
 				default:
 					continue
 				}
